@@ -13,7 +13,7 @@ echo "== [with change] failing tests:"; cargo test --workspace --no-fail-fast --
 git apply -R $O/patch.diff && echo "== [change reverted] suite:" && cargo test --workspace --no-fail-fast --offline 2>&1 | awk '/^test result/ {p+=$4; f+=$6} END {print "passed",p,"failed",f}'
 git apply $O/patch.diff
 # scratch copy for our checks
-M=/tmp/mrepo_$P; rm -rf $M; mkdir $M; (cd /repo && git archive HEAD | tar -x -C $M); (cd $M && git init -q . 2>/dev/null; git apply --unsafe-paths $O/patch.diff 2>/dev/null || patch -p1 -s < $O/patch.diff)
+M=/tmp/mrepo_$P; rm -rf $M; mkdir $M; (cd /repo && git archive HEAD | tar -x -C $M; cp /repo/Cargo.lock $M/ 2>/dev/null); (cd $M && git init -q . 2>/dev/null; git apply --unsafe-paths $O/patch.diff 2>/dev/null || patch -p1 -s < $O/patch.diff)
 echo "== diff applied to scratch:"; (cd $M && diff -r -q /repo/contracts $M/contracts; diff -r -q /repo/packages $M/packages) | head
 for p in $P "$@"; do VERIF_REPO=$M /verif/check $p 2>&1 | grep -E "VIOLATION|UNDECIDED|tier=" | head -6; done
 rm -rf $M /verif/build/alt-* /verif/build/target-* /verif/build/replay_crate-[0-9a-f]*
